@@ -291,6 +291,27 @@ def evStr : DEv → String
   | .listOpen isTok => if isTok then "LO1" else "LO0"
   | .emptyList isTok => if isTok then "E1" else "E0"
 
+/-! `traverse <tree>`: every node gets its index in declaration-order preorder as uid; answered is the order in
+  which the traverser model (`traverse` over the regenerated table) presents them. -/
+mutual
+partial def relabel : Tree → Nat → Tree × Nat
+  | .mk k _ p toks vals kids nn, n =>
+    let (kids', n') := relabelSlots kids (n + 1)
+    (.mk k n p toks vals kids' nn, n')
+partial def relabelSlots : List (List Tree) → Nat → List (List Tree) × Nat
+  | [], n => ([], n)
+  | f :: fs, n =>
+    let (f', n1) := relabelForest f n
+    let (fs', n2) := relabelSlots fs n1
+    (f' :: fs', n2)
+partial def relabelForest : List Tree → Nat → List Tree × Nat
+  | [], n => ([], n)
+  | t :: ts, n =>
+    let (t', n1) := relabel t n
+    let (ts', n2) := relabelForest ts n1
+    (t' :: ts', n2)
+end
+
 def litBytes (id : Nat) : Bytes :=
   match Gen.printerLits.find? (·.1 == id) with
   | some (_, b) => b.map (fun n => UInt8.ofNat n)
@@ -507,6 +528,10 @@ def handle (ws : List String) : String :=
     | some (t, []) =>
       let opts : DumpOpts := { withTokens := (o.take 1).toString == "1", withPositions := (o.drop 1).toString == "1" }
       " ".intercalate ((dump dumpCfgReal opts t).map evStr)
+    | _ => "bad-op"
+  | ["traverse", enc] =>
+    match pTree false (enc.splitOn ",") with
+    | some (t, []) => natsStr (traverse (fun k => travArr.getD k []) (relabel t 0).1)
     | _ => "bad-op"
   | ["nsrtree", enc] =>
     match pTree false (enc.splitOn ",") with
